@@ -611,7 +611,7 @@ def evaluate(prefix, cases):
 # ------------------------------------------------------------------------------------------------
 # the check
 # ------------------------------------------------------------------------------------------------
-PROOF_TARGETS = ["Proofs/C08/Stamps.vo", "Proofs/C08/Words.vo", "Proofs/C08/Protocol.vo", "Model/SccReaderCases.vo", "Spec/Cea608Screen.vo"]
+PROOF_TARGETS = ["Proofs/C08/Stamps.vo", "Proofs/C08/Words.vo", "Proofs/C08/Protocol.vo", "Proofs/C08/Text.vo", "Model/SccReaderCases.vo", "Spec/Cea608Screen.vo"]
 
 
 def proposed_findings():
